@@ -92,7 +92,7 @@ def run(c):
     thorough = c.tier == "thorough"
     build.cargo_build("agent")
     cases = []
-    for sl in ("match", "grant", "asg", "dup"):
+    for sl in ("match", "grant", "asg", "dup", "idcase"):
         cfg = "RbacGen_%s.cfg" % sl
         if thorough and sl == "grant":
             cfg = "RbacGen_grant_full.cfg"
@@ -193,7 +193,7 @@ def listener_slice(c, rnd, thorough):
     cur = doc(0, False)
     steps.append({"op": "set_rules", "ep": "imds", "doc": cur})
     nconn = 30 if not thorough else 300
-    k = 0
+    k = nfault = 0
     for ci in range(nconn):
         cn = "e%d" % ci
         steps.append({"op": "connect", "conn": cn, "attr": {"uid": 0, "admin": 1, "dip": "169.254.169.254", "dport": 80}})
@@ -204,7 +204,15 @@ def listener_slice(c, rnd, thorough):
             k += 1
             rid = "d%d" % k
             u = rnd.choice(urls[:3]) if rnd.random() < 0.5 else rnd.choice(urls)
+            faulty = rnd.random() < 0.1
+            if faulty:
+                # the rule set cannot be read at this moment (hook H7): the agent may refuse to decide (500), but whatever
+                # it decides must still be the declared decision for the document in force
+                steps.append({"op": "fault", "rules_lookup_fails": True})
             steps.append({"op": "request", "conn": cn, "id": rid, "method": "GET", "target": u, "headers": [["Host", "h"]]})
+            if faulty:
+                steps.append({"op": "fault", "rules_lookup_fails": False})
+                nfault += 1
             meta[rid] = (cur, u)
         steps.append({"op": "close", "conn": cn})
     ev, d, _ = rig.run_rig({"steps": steps, "drain_ms": 200}, name, timeout=600)
@@ -224,10 +232,11 @@ def listener_slice(c, rnd, thorough):
             continue
         rows.append({"e": "dec", "id": rid, "doc": proxylib.doc_to_tla(dj), "url": proxylib.url_to_tla(u), "allowed": allowed,
                      "caller": {kk_: caller[kk_] for kk_ in ("user", "groups", "proc", "exe")}})
-    if len(rows) < len(meta) * 0.9 or not any(r["allowed"] for r in rows) or all(r["allowed"] for r in rows):
+    if len(rows) < (len(meta) - nfault) * 0.9 or not any(r["allowed"] for r in rows) or all(r["allowed"] for r in rows):
         raise util.ToolError("listener slice is vacuous: %d of %d requests decided, %d allowed" % (
             len(rows), len(meta), sum(r["allowed"] for r in rows)))
     c.extra["listener_decisions"] = len(rows)
+    c.extra["listener_requests_during_rules_lookup_fault"] = nfault
     c.extra["listener_connections"] = nconn
     c.traces_validated += nconn
     ok, why, res = validate_trace(c, "RbacTrace", "RbacTrace.cfg", rows, "c02_listener", count=0, timeout=600)
